@@ -457,7 +457,13 @@ pub fn check_outcome(o: &Outcome, ovh: usize, vsz: usize) -> Vec<Fail> {
         }
     }
     // C20: hashing bound
-    let deps = ex.departed.len() as u64;
+    // "one per entry that leaves the cache during it": the entries that actually left (an implementation that evicts
+    // more than the minimal run answers to C03 for that, not to C20), at least those the reference run loses
+    let left_actually = match &o.post {
+        Some(p) if p.full && p.walk_err.is_none() => pre.ord.iter().filter(|e| !p.ord.iter().any(|x| x.k.tok == e.k.tok && x.k.id == e.k.id)).count() as u64,
+        _ => 0,
+    };
+    let deps = (ex.departed.len() as u64).max(left_actually);
     // only the operations the property names may rebuild the table (and then hash each held entry once):
     // reserve, try_reserve, shrink_to, shrink_to_fit and an insertion that grows it (clone is checked apart)
     let may_rebuild = matches!(op, OpKind::Reserve(_) | OpKind::TryReserve(_) | OpKind::Shrink(_) | OpKind::ShrinkFit)
@@ -541,7 +547,29 @@ pub fn check_outcome(o: &Outcome, ovh: usize, vsz: usize) -> Vec<Fail> {
         if a != b {
             fail(&mut v, ex.set_prop, format!("after {} the cache holds {:?} where {:?} is due", op.text(), got, want));
             if ex.set_prop != "C04" {
-                fail(&mut v, "C04", format!("after {} the cache holds keys {:?} where {:?} is due", op.text(), got, want));
+                // C04 reads the cache as a sequential map *given* the evictions that happened: an entry that is gone
+                // because it was evicted (its objects were dropped or handed back by this very call), or one that
+                // stayed although a minimal eviction would have taken it, is C03's matter. The map is concerned by
+                // an entry that vanished without its objects leaving, and by a key that appears from nowhere.
+                let new_id = match op { OpKind::Ins { id, .. } | OpKind::TIns { id, .. } => Some(*id), _ => None };
+                let vanished = want.iter().any(|id| !got.contains(id) && match find(&pre.ord, *id) {
+                    Some(e) => [e.k.tok, e.v.tok].iter().any(|t| crate::types::tracked(*t) && !got_drops.contains(t) && !returned.contains(t)),
+                    None => Some(*id) == new_id && !o.ret.is_rejection() && {
+                        let own = o.ret.owned();
+                        match op { OpKind::Ins { kt, vt, .. } | OpKind::TIns { kt, vt, .. } =>
+                            [*kt, *vt].iter().any(|t| crate::types::tracked(*t) && !got_drops.contains(t) && !own.contains(t)), _ => false }
+                    },
+                });
+                let phantom = got.iter().any(|id| !want.contains(id) && find(&pre.ord, *id).is_none() && Some(*id) != new_id);
+                // an eviction takes a run of least-recently-used entries: what disappeared (the replaced entry of an
+                // accepted insertion aside) must be a prefix of the previous order; and a rejected insertion evicts nothing
+                let replaced = if o.ret.is_rejection() { None } else { new_id };
+                let before: Vec<u32> = ids(&pre.ord).into_iter().filter(|id| Some(*id) != replaced).collect();
+                let gone: Vec<u32> = before.iter().copied().filter(|id| !got.contains(id)).collect();
+                let not_a_run = gone[..] != before[..gone.len().min(before.len())] || (o.ret.is_rejection() && !gone.is_empty());
+                if vanished || phantom || not_a_run {
+                    fail(&mut v, "C04", format!("after {} the cache holds keys {:?} where {:?} is due", op.text(), got, want));
+                }
             }
             // the operation's own property also speaks about what stays: a rejected insertion leaves the
             // contents untouched (C10); mutate evicts older entries only, never the mutated one (C11)
